@@ -15,7 +15,10 @@ CONSTANTS Encs, Grants, Checks, BSizes,
                      \* "stream": a long-running application that writes small pieces and flushes
                      \* (like xz --flush-timeout): RUN / SYNC_FLUSH with 0..MaxIn units, now and then a FULL_FLUSH
                      \* or new lc/lp/pb, never FINISH (the driver finishes); only the complete history is printed
-VARIABLE path
+                     \* "mid": as "all", and lzma_filters_update() also between the lzma_code() calls of an
+                     \* unfinished operation (output granted byte by byte parks the encoder inside every format
+                     \* element); only histories with such a call are printed
+VARIABLES path, ntok     \* ntok: format elements completed so far (history)
 
 C0(pre, lz) == Chain(pre, lz, "p0")
 InitChains(e) == IF e = "raw"
@@ -30,7 +33,7 @@ GTargets == {t \in ChainsAll : /\ t.lz = cfg.chain0.lz
 GInit == /\ \E e \in Encs, g \in Grants, k \in Checks :
               \E c \in {x \in InitChains(e) : Profile = "all" \/ (x.pre \in {"none", "delta"} /\ x.lz = "lzma2")}, bs \in (IF e = "mt" THEN BSizes ELSE {0}) :
                   InitWith(InitCfg(e, c, k, g, bs))
-         /\ path = <<>>
+         /\ path = <<>> /\ ntok = 0
 
 StreamOps == {<<a, n>> : a \in {"RUN", "SYNC_FLUSH"}, n \in 0..MaxIn} \cup {<<"FULL_FLUSH", 0>>}
 GNextX ==
@@ -42,18 +45,38 @@ GNextX ==
        /\ BeginCall(app.op, app.left, app.left, FALSE, 1, "any", FALSE) \/ RejectedCall(app.op, app.left)
     \/ InnerStep
     \/ /\ app.nops < MaxOps
-       /\ \E t \in GTargets : (Profile = "stream" => (t.pre = cfg.chain0.pre /\ t.props \in GoodProps)) /\ Update(t)
+       /\ (Profile # "mid" => app.op = "none")
+       /\ \E t \in GTargets, fm \in FailModes :
+             /\ (Profile = "stream" => (t.pre = cfg.chain0.pre /\ t.props \in GoodProps /\ fm = "none"))
+             \* failing allocator: with a change of lc/lp/pb and with a change of the chain
+             /\ (fm # "none" => (t.props = "p1" /\ t.pre = cfg.chain0.pre) \/ (t.props = "p0" /\ t.pre \notin {cfg.chain0.pre, "armbad"}))
+             /\ (Profile = "mid" /\ app.op # "none" => fm = "none" /\ t.props # "bad")
+             /\ Update(t, fm)
+
+Where == CASE cfg.enc = "stream" ->
+                 (CASE sc.sseq = "HDR" -> "stream_header" [] sc.sseq = "BINIT" -> "boundary"
+                    [] sc.sseq = "BHDR" -> "block_header" [] sc.sseq = "INDEX" -> "index" [] sc.sseq = "FOOTER" -> "footer"
+                    [] OTHER -> (IF sc.bseq = "CODE" THEN "data" ELSE IF sc.bseq = "PAD" THEN "padding" ELSE "check"))
+           [] cfg.enc = "block" -> (IF sc.bseq = "CODE" THEN "data" ELSE IF sc.bseq = "PAD" THEN "padding" ELSE "check")
+           [] cfg.enc = "raw" -> "data"
+           [] OTHER -> (CASE mt.seq = "HDR" -> "stream_header" [] mt.seq = "BLOCK" -> "data"
+                          [] mt.seq = "INDEX" -> "index" [] OTHER -> "footer")
 
 BlockList(b) == [i \in 1..Len(b) |-> [n |-> b[i].n, pre |-> b[i].chain.pre]]
 Rec(e) == IF e.kind = "op"
           THEN [k |-> "op", a |-> e.a, n |-> e.n, ret |-> e.ret, given |-> totalIn',
                 blocks |-> BlockList(blocks'), inq |-> Len(mt'.q), open |-> OpenBlock']
-          ELSE [k |-> "update", target |-> e.target, ret |-> e.ret]
+          ELSE [k |-> "update", target |-> e.target, ret |-> e.ret, fail |-> e.fail, mid |-> e.mid,
+                \* where the encoder is parked (mid-operation calls): elements completed, element being written
+                ntok |-> ntok, where |-> Where, during |-> [a |-> app.op, n |-> app.n, left |-> app.left]]
 
-GNext == GNextX /\ path' = IF ev'.kind = "none" THEN path ELSE Append(path, Rec(ev'))
-GSpec == GInit /\ [][GNext]_<<allvars, path>>
+GNext == /\ GNextX /\ path' = IF ev'.kind = "none" THEN path ELSE Append(path, Rec(ev'))
+         /\ ntok' = IF tok'.kind = "none" THEN ntok ELSE ntok + 1
+GSpec == GInit /\ [][GNext]_<<allvars, path, ntok>>
 GView == <<inited, supported, seq, savedIn, allowBuf, totalIn, cfg, app, call, sc, fl, mt, blocks>>
-Emit == (ev'.kind # "none" /\ (Profile = "all" \/ app'.nops = MaxOps)) =>
+HasMid(p) == \E i \in 1..Len(p) : p[i].k = "update" /\ p[i].mid
+Emit == (ev'.kind # "none" /\ (Profile = "all" \/ (Profile = "stream" /\ app'.nops = MaxOps)
+                               \/ (Profile = "mid" /\ HasMid(path')))) =>
             PrintT(<<"PLAN", ToJson([enc |-> cfg.enc, chain |-> cfg.chain0, check |-> cfg.check,
                                      grant |-> cfg.grant, bsize |-> cfg.bsize, ops |-> path'])>>)
 =============================================================================
